@@ -248,8 +248,17 @@ func runConn(args []string) (out string) {
 	return out
 }
 
+// errAppCause is why the harness cancels a request's context: Connect reports the context's error, never this
+var errAppCause = errors.New("verif: the application is shutting down")
+
 func runConnInner(args []string) string {
-	ctx, cancel := context.WithCancel(context.Background())
+	// the request's context has a deadline (an hour away: it never fires — the harness gives up after 20 s) and is
+	// cancelled with a cause: what Connect returns for a done context is ctx.Err(), and a deadline that lies beyond
+	// the case but before the end of a long wait changes nothing
+	dctx, dcancel := context.WithDeadline(context.Background(), time.Now().Add(time.Hour))
+	defer dcancel()
+	ctx, cancelCause := context.WithCancelCause(dctx)
+	cancel := func() { cancelCause(errAppCause) }
 	defer cancel()
 	var hist []pAttempt
 	if args[5] != "-" {
